@@ -426,6 +426,15 @@ def run_history(case, rec):
                 nontrivial = True
             elif name == "mesh_save_load":
                 mdir = os.path.join(root, "M")
+                # user tags: a few scattered nodes (gauges: no element of any group is covered) and the nodes of one element
+                Nn_ = simu.mesh.Nn
+                gauges = np.unique(np.array([0, Nn_ // 3, (2 * Nn_) // 3, Nn_ - 1], int))
+                simu.mesh.Set_Tag(gauges, "verif_gauges")
+                g_main = gm.main_groups(simu.mesh)[0] if kind != "beam" else None
+                if g_main is not None:
+                    simu.mesh.Set_Tag(np.asarray(g_main.connect[0], int), "verif_elem0")
+                rec.require(np.array_equal(np.sort(simu.mesh.Nodes_Tags(["verif_gauges"])), gauges), "mesh_user_tag",
+                            "Nodes_Tags does not give back the nodes a user tag was set on", **sig)
                 path = simu.mesh.Save(mdir)
                 m2 = Load_Mesh(path)
                 _equal_fields(rec, _mesh_sig(m2), _mesh_sig(simu.mesh), "mesh_roundtrip", "mesh.Save + Load_Mesh", sig)
@@ -436,6 +445,8 @@ def run_history(case, rec):
                     for t in g0.nodeTags:
                         rec.require(np.array_equal(np.sort(g0.Get_Nodes_Tag(t)), np.sort(g1.Get_Nodes_Tag(t))), "mesh_roundtrip_tags",
                                     f"nodes of tag {t} differ", **sig)
+                rec.require(np.array_equal(np.sort(m2.Nodes_Tags(["verif_gauges"])), gauges), "mesh_roundtrip_tags",
+                            "user tag on scattered nodes lost or changed by Save / Load_Mesh", **sig)
             # stored iterations are never altered by what happened since: one of them is read back after every operation
             # (audit = "each"), or all of them at the end only (audit = "end": the history then contains no read of its own making,
             # so that what one read leaves behind for the next one is not wiped out by the harness)
